@@ -40,7 +40,8 @@ ANCHORS = ['verify:get_file_metadata', 'recursiveloader:ManifestLoader.verify_an
            'recursiveloader:ManifestRecursiveLoader.load_unregistered_manifests',
            'util:throw_exception', 'compression:open_potentially_compressed_path']
 REQUIRED = ['verify:get_file_metadata', 'faults_fired', 'fp:verify', 'fp:verify-k',
-            'fp:update', 'fp:verify-mtime', 'fp:update-inc', 'fp:cli-k', 'fp:cli-sub', 'priv_runs', 'strace_runs']
+            'fp:update', 'fp:verify-mtime', 'fp:update-inc', 'fp:cli-k', 'fp:cli-sub', 'priv_runs', 'strace_runs',
+            'fp:create-fresh']
 ASSUMPTIONS = ['single faults (one injected error per execution)',
                'ENOENT, ENXIO, EOPNOTSUPP are excluded (statement / device-only, U9)',
                'Python-level failpoints cover os.open os.stat os.lstat os.fstat '
@@ -107,10 +108,22 @@ def run_op(root, op, sub=None):
                 argv += ['-k', root]
             else:
                 argv += [os.path.join(root, sub)]
+            # (as the installed command runs: informational messages are formatted
+            # and emitted, so whatever their arguments evaluate lazily is evaluated)
+            lg = logging.getLogger()
+            old_level = lg.level
+            sink = open(os.devnull, 'w')
+            hnd = logging.StreamHandler(sink)
+            lg.addHandler(hnd)
+            lg.setLevel(logging.INFO)
             try:
                 rc = gcli.main(argv)
             except SystemExit as exc:
                 rc = 'exit'
+            finally:
+                lg.setLevel(old_level)
+                lg.removeHandler(hnd)
+                sink.close()
             # for the CLI 'True' means exit status 0
             return ('ret', True if rc == 0 else rc)
         if op == 'verify':
@@ -228,7 +241,78 @@ def run_fp(u, ctx):
                                               'tree differs after a failed %s' % op,
                                               case)
                                 return
+        run_createfresh(ctx, root, d, u)
         ctx.sample({'tree': u['i'], 'call_counts': counts}, 'fp')
+
+
+def run_createfresh(ctx, root, d, u):
+    """`gemato create` on a tree that has no Manifest at all yet, with one fault in
+    the scan: the command fails and nothing - not even an empty Manifest - is left."""
+    from gemato import cli as gcli
+    from gemato.recursiveloader import ManifestRecursiveLoader as L
+    fresh = os.path.join(d, 'fresh')
+    common.copy_tree(root, fresh)
+    for dp, dn, fn in os.walk(fresh):
+        for f in fn:
+            if f == 'Manifest' or f.startswith('Manifest.'):
+                os.unlink(os.path.join(dp, f))
+    snap0 = gtree.snapshot(fresh)
+
+    def restore():
+        for dp, dn, fn in os.walk(fresh):
+            for f in fn:
+                rel = os.path.relpath(os.path.join(dp, f), fresh)
+                if rel not in snap0:
+                    os.unlink(os.path.join(dp, f))
+
+    def create():
+        try:
+            return gcli.main(['gemato', 'create', '--hashes', 'SHA256', fresh])
+        except SystemExit:
+            return 'exit'
+        except Exception as exc:
+            return exc
+    with failpoints.Failpoints(fresh) as fp0:
+        rc = create()
+    restore()
+    if rc != 0:
+        ctx.discarded('baseline create failed: %r' % (rc,))
+        return
+    entered = []
+    orig_save = L.save_manifests
+
+    def save_manifests(loader, *a, **kw):
+        entered.append(1)
+        return orig_save(loader, *a, **kw)
+    L.save_manifests = save_manifests
+    try:
+        for klass, total in fp0.counts.items():
+            for n in range(min(total, 5)):
+                for err in (errno.EACCES, errno.EIO):
+                    case = {'kind': 'fp', 'tree': u['i'], 'op': 'create-fresh',
+                            'class': klass, 'n': n, 'errno': err, 'gen_seed': ctx.seed}
+                    del entered[:]
+                    with failpoints.Failpoints(fresh, (klass, n), err) as fp:
+                        rc = create()
+                    if fp.fired is None:
+                        restore()
+                        continue
+                    ctx.count('fp:create-fresh')
+                    ctx.case(sig=('fp', 'create-fresh', klass, errno.errorcode[err]),
+                             case=case, klass='fp-create-fresh')
+                    if rc == 0 and not entered:
+                        ctx.violation('update-survives-fault:' + fp.fired[0],
+                                      'create completed although %s #%d (%s) failed'
+                                      % fp.fired, case)
+                    elif rc != 0 and not entered and gtree.snapshot(fresh) != snap0:
+                        left = sorted(set(gtree.snapshot(fresh)) - set(snap0))
+                        ctx.violation('tree-changed-by-failed-create',
+                                      'create failed (%r) in the scan (%s #%d) and left %r '
+                                      'behind' % (rc, fp.fired[0], fp.fired[1], left[:3]),
+                                      case)
+                    restore()
+    finally:
+        L.save_manifests = orig_save
 
 
 # ------------------------------------------------------------------ priv
